@@ -99,7 +99,8 @@ class Exec:
             ev.append(["enter_fault"])      # an exception (signal handler, MemoryError) strikes while the block is being entered
         if self.cms:
             ev.append(["exit"])
-            ev.append(["exit_exc"])
+            for kind in ("KeyError", "KeyboardInterrupt", "AccessDenied"):
+                ev.append(["exit_exc", kind])      # the block is left by an exception: an ordinary one, a BaseException, one of psutil's own
         for m in c.methods:
             ev.append(["call", m])
         if not self.gone:
@@ -188,10 +189,14 @@ class Exec:
             if k == "exit":
                 out = outcome(cm.__exit__, None, None, None)
             else:
-                e = KeyError("boom")
-                out = outcome(cm.__exit__, KeyError, e, None)
-                if out[0] == "exc" and out[1] == "KeyError":
-                    out = ("ok", False)
+                kind = ev[1] if len(ev) > 1 else "KeyError"
+                e = {"KeyError": KeyError("boom"), "KeyboardInterrupt": KeyboardInterrupt(),
+                     "AccessDenied": self.ps.AccessDenied(self.cfg.pid)}[kind]
+                try:
+                    r = cm.__exit__(type(e), e, None)
+                    out = ("ok", r)
+                except BaseException as e2:  # noqa: BLE001
+                    out = ("ok", False) if e2 is e else ("exc", type(e2).__name__, {"str": str(e2)[:200]})
             if out[0] != "ok":
                 self.viol("exit-raised", repr(out))
             if not self.cms:
